@@ -184,12 +184,32 @@ struct KillWorldGen {
         }
       }
     }
+    // names that contain pattern characters (systemd escapes unit names with
+    // backslashes; brackets are legal too): "j[12]" the pattern matches j1 and
+    // j2, never the cgroup that is literally called j[12]
+    if (rng.chance(0.15)) {
+      for (auto n : {"j1", "j2", "j[12]", "u\\x2dv"}) {
+        cgs.append(spec(n));
+        paths.push_back(n);
+      }
+      special = true;
+    }
   }
+  bool special = false;
 };
 
 inline std::string pickKillPatterns(Rng& rng, const std::vector<std::string>& paths) {
   std::vector<std::string> cands = {"*", "a*", "*/*", "a/*", "*/x", "sys", "zz"};
+  bool special = false;
+  for (auto& p : paths)
+    special = special || p == "j[12]";
+  if (special)
+    for (auto c : {"j[12]", "j[12]", "j[!1]", "j?", "j*", "j\\[12\\]",
+                   "u\\\\x2dv", "u*"})
+      cands.push_back(c);
   for (auto& p : paths) {
+    if (p == "j[12]" || p == "u\\x2dv")
+      continue; // as a pattern these mean something else than themselves
     cands.push_back(p);
     auto s = p.find('/');
     if (s != std::string::npos)
